@@ -143,6 +143,9 @@ def run_case(ctx, rng, n, workers, ncons, n_pre, with_store, gated, settle, hold
     gate.enabled = gated
     idx_of = {}
     p = make_problem(ncons, gate, idx_of)
+    if case_no % 3 == 0:
+        # a user-set (short) calculation time-out is a declared problem option; evaluation results must not depend on it
+        p.options["time_out"] = 0.01
     vecs = [[round(rng.uniform(-2, 2), 3), round(rng.uniform(-2, 2), 3)] for _ in range(n)]
     if n >= 3 and rng.random() < 0.3:
         vecs[-1] = list(vecs[0])          # two designs with the same vector (different ids)
@@ -259,9 +262,13 @@ def run_case(ctx, rng, n, workers, ncons, n_pre, with_store, gated, settle, hold
                 return local_trace
             return None
         threading.settrace(tracer)
+    raised = None
     try:
         with open(os.devnull, "w") as devnull, contextlib.redirect_stdout(devnull), contextlib.redirect_stderr(devnull):
-            algo.evaluate(inds)
+            try:
+                algo.evaluate(inds)
+            except Exception as e:   # noqa: the objective never fails here, so serial evaluation cannot raise
+                raised = "%s: %s" % (type(e).__name__, e)
     finally:
         threading.settrace(None)
         sqlite3.connect = _real_connect
@@ -273,7 +280,7 @@ def run_case(ctx, rng, n, workers, ncons, n_pre, with_store, gated, settle, hold
     if gate.timeouts:
         return None, None, None
     obs = {"designs": [], "calls": [p.calls.count(t) for t in range(n)], "stray_calls": p.calls.count(-1),
-           "rows": None, "pre": sorted(pre)}
+           "rows": None, "pre": sorted(pre), "raised": raised, "failed_list": len(p.failed)}
     for t, ind in enumerate(inds):
         obs["designs"].append({"state": ind.state.name, "costs": [float(c) for c in ind.costs],
                                "signed": [float(c) for c in ind.costs_signed[:-1]] if ind.costs_signed else [],
@@ -356,6 +363,10 @@ def parse_model(ans):
 def compare(obs, ans):
     """Return None if the observation is what the model (= serial result, by parallel_fields) gives."""
     designs, rows, calls, pc = parse_model(ans)
+    if obs.get("raised"):
+        return "parallel evaluation raised %s (the objective never fails; serial evaluation of the batch succeeds)" % obs["raised"]
+    if obs.get("failed_list"):
+        return "parallel evaluation put %d designs on the problem's failed list although the objective never fails" % obs["failed_list"]
     if any(k != 5 for k in pc):
         return "harness: schedule incomplete in the model %r" % pc
     if obs.get("stray_calls"):
